@@ -630,6 +630,37 @@ func (e *Env) evalCall(n *ECall) (cval, error) {
 			return cval{}, err
 		}
 		return cval{t: c.jsonField(d.t, nm.V, t, nil), typ: t}, nil
+	case "jsonelem":
+		// jsonelem(data, i, "GoType"): element i of the wire array as decoded into a slice of GoType
+		if err := need(3); err != nil {
+			return cval{}, err
+		}
+		d, err := e.eval(n.Args[0])
+		if err != nil {
+			return cval{}, err
+		}
+		i, err := e.eval(n.Args[1])
+		if err != nil {
+			return cval{}, err
+		}
+		ts, ok := n.Args[2].(*EStr)
+		if !ok {
+			return cval{}, fmt.Errorf("jsonelem(data, i, \"type\")")
+		}
+		t, err := c.W.ParseType(e.pkgPath, ts.V)
+		if err != nil {
+			return cval{}, err
+		}
+		return cval{t: c.jsonElem(d.t, i.t, t), typ: t}, nil
+	case "jsonlen":
+		if err := need(1); err != nil {
+			return cval{}, err
+		}
+		d, err := e.eval(n.Args[0])
+		if err != nil {
+			return cval{}, err
+		}
+		return cval{t: c.jsonLen(d.t), typ: types.Typ[types.Int]}, nil
 	case "dyntype":
 		// dyntype(x): what reflect.TypeOf(x) returns for the interface value x
 		if err := need(1); err != nil {
